@@ -5,6 +5,7 @@ go 1.26.8
 require (
 	0chain.net v0.0.0
 	github.com/0chain/common v1.13.1-0.20240726100134-cbf5bf9beaac
+	github.com/anishathalye/porcupine v1.3.0
 	github.com/herumi/bls-go-binary v1.33.0
 	github.com/linxGnu/grocksdb v1.8.1
 	go.uber.org/zap v1.24.0
